@@ -95,6 +95,27 @@ class FnCtx:
                 out.append((bb, t))
         return out
 
+    def calls_with_closures(self, fx, *suffixes):
+        """calls(...) plus, for every call of this function that is handed a closure whose body makes a matching call
+        (`opt.map(|i| i.update_state(..))`), that call: [(block, terminator of the outer or the direct call, inner call or None, closure ctx or None)]"""
+        out = [(bb, t, None, None) for bb, t in self.calls(*suffixes)]
+        for bb, t in self.mir.calls():
+            if t.callee.indirect:
+                continue
+            for a in t.args:
+                if a.place is None:
+                    continue
+                for d in self.mir.whole_defs(a.place.local):
+                    if d[0] == "s" and d[3].rv is not None and d[3].rv.kind == "aggregate" and d[3].rv.agg.get("k") == "closure":
+                        cb = fx.bodies.get(d[3].rv.agg["def"])
+                        if cb is None or cb.mir is None:
+                            continue
+                        kf = FnCtx(cb)
+                        for b2, t2 in kf.calls(*suffixes):
+                            out.append((bb, t, t2, kf))
+        out.sort(key=lambda x: x[0])      # position in the function, whichever way the call is made
+        return out
+
     def calls_deep(self, fx, *suffixes, depth=2):
         """calls(...) plus calls to functions that are new with respect to the reference tree (see engine/vplib/inline.py) and
         whose body, closures or coroutine contain a matching call — for helpers that cannot be inlined (async fn)"""
